@@ -514,12 +514,31 @@ fn cmd_deccmp(cases_path: &str, out_path: &str, from: usize) {
             flat.push(json!({"c": ci, "e": ei}));
         }
     }
+    // Call history: the decoder is a function of the bytes only, whatever it was given before and wherever they lie.
+    // Every stream is decoded in ONE reused buffer (same address), right after the nearest earlier DIFFERENT stream
+    // of the same length and the same expansion length was decoded there through the same entry point.
+    let mut pred: Vec<Option<usize>> = vec![None; cases.len()];
+    let mut last: std::collections::HashMap<(usize, usize), Vec<usize>> = std::collections::HashMap::new();
+    for (ci, c) in cases.iter().enumerate() {
+        let l = last.entry((c.stream.len(), c.expect.len())).or_default();
+        pred[ci] = l.iter().rev().take(8).cloned().find(|&j| cases[j].stream != c.stream);
+        l.push(ci);
+    }
+    let maxlen = cases.iter().map(|c| c.stream.len()).max().unwrap_or(0);
+    let arena = std::cell::RefCell::new(vec![0u8; maxlen]);
     run_isolated(&flat, from, out_path, |_, f| {
         let ci = f["c"].as_u64().unwrap() as usize;
         let (entry, cls) = &cases[ci].entries[f["e"].as_u64().unwrap() as usize];
         let (entry, cls) = (entry.as_str(), cls.as_str());
         let (stream, expect) = (&cases[ci].stream, &cases[ci].expect);
-        let r = decompress(entry, stream);
+        let mut buf = arena.borrow_mut();
+        let n = stream.len();
+        if let Some(j) = pred[ci] {
+            buf[..n].copy_from_slice(&cases[j].stream);
+            let _ = decompress(entry, &buf[..n]);      // judged at its own turn
+        }
+        buf[..n].copy_from_slice(stream);
+        let r = decompress(entry, &buf[..n]);
         let (kind, same, got_len, msg) = match &r {
             Ok(Ok(v)) => ("ok", v == expect, v.len(), String::new()),
             Ok(Err(e)) => ("err", false, 0, e.clone()),
